@@ -137,7 +137,20 @@ class CacheStore(object):
         if self._cache_is_valid(store_filename, filename):
             return None
 
-        tmp_fd, tmp_filename = tempfile.mkstemp(prefix='g-ir-scanner-cache-')
+        # The temporary file is created in the cache directory itself, so
+        # that it can be renamed into place atomically. A file from TMPDIR
+        # may be on another file system and would have to be copied to its
+        # final name, where a concurrent load() could see it half written.
+        try:
+            tmp_fd, tmp_filename = tempfile.mkstemp(prefix='g-ir-scanner-cache-',
+                                                    dir=self._directory)
+        except (IOError, OSError) as e:
+            # Permission denied
+            if e.errno == errno.EACCES:
+                return
+            else:
+                raise
+
         try:
             with os.fdopen(tmp_fd, 'wb') as tmp_file:
                 pickle.dump(data, tmp_file)
@@ -150,10 +163,11 @@ class CacheStore(object):
                 raise
 
         try:
-            shutil.move(tmp_filename, store_filename)
+            os.replace(tmp_filename, store_filename)
         except (IOError, OSError) as e:
-            # Permission denied
-            if e.errno == errno.EACCES:
+            # Permission denied, or the temporary file was removed by
+            # another scanner purging the cache directory in the meantime
+            if e.errno in (errno.EACCES, errno.ENOENT):
                 self._remove_filename(tmp_filename)
             else:
                 raise
